@@ -592,6 +592,19 @@ def run_runtime(pid, tier, seed):
 # C17: execution modes and pools
 # ------------------------------------------------------------------------------------------------------
 
+POOLS_MC_CFG = '''SPECIFICATION SpecP
+CONSTANTS
+ TPools <- MCT
+ PPools <- MCP
+ Mgrs <- MCM
+INVARIANT TypeOK
+INVARIANT RunsOnlyWithPools
+PROPERTY FirstWins
+PROPERTY DownIsFinal
+PROPERTY NeverReadyAgain
+CHECK_DEADLOCK FALSE
+'''
+
 MODE_NAMES = ['coro', 'inline', 'thread', 'process', 'ncoro']      # ncoro: coroutine body + non_async tag
 
 
@@ -697,6 +710,33 @@ def run_c17(tier, seed):
             byname[o['id']] = p
             o['poolmissing'] = missing
             pool_out.append(o)
+    # (c') the registries and the fail-fast check as a state machine: spec/Pools.tla model-checked, then random and
+    # directed call histories of the REAL registries (fresh interpreter each) validated by spec/PoolsTrace.tla
+    from harness import pools as _pools
+    mc = tlc.model_check('MC_Pools', POOLS_MC_CFG)
+    if not mc['ok']:
+        raise tlc.TLCError('Pools.tla model check failed:\n' + mc['out_tail'])
+    hs = _pools.histories(seed, 48 if quick else 600)
+    houts = _pools.run_histories(hs)
+    for o in houts:
+        if 'error' in o:
+            herrors.append('%s: %s' % (o['id'], o['error']))
+    good = [o for o in houts if 'error' not in o]
+    pverd, pst = tlc.run_batch('PoolsTrace', {'histories': good}, len(good))
+    states += pst.get('distinct', 0) + mc.get('distinct', 0)
+    pool_hist_ops = sum(len(o['ops']) for o in good)
+    pool_drift = 0
+    for hid, v in sorted(pverd.items()):
+        ops = [o for o in good if o['id'] == hid][0]['ops']
+        bad = sorted({c for c, _ in v if c.startswith('C17')})
+        if bad:
+            viol.append(('registry', hid, bad, {'history': ops, 'lines': sorted({l for c, l in v if c.startswith('C17')})}, {'name': hid}))
+        drift = sorted({(c, l) for c, l in v if c.startswith('drift')})
+        if drift:
+            # the registries do not behave as Pools.tla says, without C17 being violated: the specification is out of date
+            pool_drift += 1
+            c, l = drift[0]
+            print('MODEL-DRIFT instance=Pools.tla/%s step=%d diff=%s' % (hid, l, json.dumps({'clause': c, 'call': ops[l - 1]})))
     # validate all real-loop histories at level O
     ptla = []
     traces = []
@@ -733,6 +773,8 @@ def run_c17(tier, seed):
                      'traces_validated_against_impl': nvirtual + len(traces),
                      'virtual_loop_executions': nvirtual, 'real_loop_executions': len(real_out),
                      'pool_registry_cases': len(pool_out), 'mode_assignments': len(progs),
+                     'pool_registry_model': {'states': mc.get('distinct', 0), 'properties': ['TypeOK', 'RunsOnlyWithPools', 'FirstWins', 'DownIsFinal', 'NeverReadyAgain']},
+                     'pool_registry_histories': len(good), 'pool_registry_calls': pool_hist_ops,
                      'samples': [{'id': t['id'], 'lines': t['lines'][:10]} for t in traces[:2]],
                      'explanation': 'every mode assignment on the virtual loop; a sample on a real SelectorEventLoop with real '
                                     'ThreadPoolExecutor / fork ProcessPoolExecutor (timing sampled, not enumerated); five pool '
@@ -741,8 +783,10 @@ def run_c17(tier, seed):
         'wall_s': round(time.time() - t0, 2), 'violations': len(reported)}
     with open(os.path.join(ROOT, 'evidence', 'C17.json'), 'w') as f:
         json.dump(evidence, f, indent=1)
-    print('C17 %s: %d mode assignments; %d virtual-loop + %d real-loop executions + %d pool-registry cases validated by TLC, '
-          '%d new violation(s), %.1fs' % (tier, len(progs), nvirtual, len(real_out), len(pool_out), len(reported), time.time() - t0))
+    print('C17 %s: %d mode assignments; %d virtual-loop + %d real-loop executions + %d pool-registry cases validated by TLC; '
+          'Pools.tla: %d states, %d call histories (%d calls) of the real registries validated; %d new violation(s), %.1fs'
+          % (tier, len(progs), nvirtual, len(real_out), len(pool_out), mc.get('distinct', 0), len(good), pool_hist_ops, len(reported),
+             time.time() - t0))
     if reported:
         return 1
     return 2 if herrors else 0
